@@ -22,6 +22,7 @@ import (
 	"io"
 	"net/http"
 	"net/http/httptest"
+	"net/http/httptrace"
 	"os"
 	"runtime"
 	"sort"
@@ -82,8 +83,9 @@ func (l *c16Logger) reset() { atomic.StoreInt64(&l.n, 0) }
 // ---- engine instances ----
 
 type c16Engine struct {
-	mux *api.Mux
-	log *c16Logger
+	mux   *api.Mux
+	log   *c16Logger
+	alias sync.Map // socket address -> client name (loop-back server variant)
 }
 
 var c16ScenarioText string
@@ -597,6 +599,9 @@ func c16Concurrent(e *c16Engine, prefix []c16Req, reqs []c16Req, doer c16Doer) (
 	seen := map[int]bool{}
 	for j := 0; j < k && j < len(e.log.order); j++ {
 		w := e.log.order[j]
+		if a, ok := e.alias.Load(w); ok {
+			w = a.(string)
+		}
 		if strings.HasPrefix(w, "client-") {
 			if id, err := strconv.Atoi(strings.TrimPrefix(w, "client-")); err == nil && id < n && !seen[id] {
 				seen[id] = true
@@ -735,8 +740,10 @@ func c16Search(prefix []c16Req, reqs []c16Req, obs c16Outcome, budget *int) (fou
 
 // ---- loop-back server variant (thorough): the same batch through real sockets and net/http's own goroutines ----
 
-func c16ViaServer(base string) c16Doer {
-	client := &http.Client{}
+func c16ViaServer(base string, alias *sync.Map) c16Doer {
+	// one connection per request (no keep-alive), so that the socket's local address -- which is what the mux logs as
+	// RemoteAddr -- identifies the client
+	client := &http.Client{Transport: &http.Transport{DisableKeepAlives: true}}
 	return func(e *c16Engine, r c16Req, who string) (int, string) {
 		req, err := http.NewRequest(r.Method, base+r.Path, strings.NewReader(r.Body))
 		if err != nil {
@@ -745,6 +752,10 @@ func c16ViaServer(base string) c16Doer {
 		if r.CT != "" {
 			req.Header.Add("Content-Type", r.CT)
 		}
+		trace := &httptrace.ClientTrace{GotConn: func(info httptrace.GotConnInfo) {
+			alias.Store(info.Conn.LocalAddr().String(), who)
+		}}
+		req = req.WithContext(httptrace.WithClientTrace(req.Context(), trace))
 		resp, err := client.Do(req)
 		if err != nil {
 			panic(err)
@@ -782,6 +793,9 @@ func runC16(args []string) {
 	if v := os.Getenv("VERIF_C16_TRIALS"); v != "" {
 		trials, _ = strconv.Atoi(v)
 	}
+	if v := os.Getenv("VERIF_C16_SERVER_TRIALS"); v != "" {
+		serverTrials, _ = strconv.Atoi(v)
+	}
 	stats := map[string]int{"gomaxprocs": runtime.GOMAXPROCS(0), "actions": len(c16Actions), "planning_units": len(c16PUs)}
 	distinct := map[string]bool{}
 	searchBudgetTotal := 4000
@@ -804,7 +818,7 @@ func runC16(args []string) {
 		var srv *httptest.Server
 		if viaServer {
 			srv = httptest.NewServer(e.mux)
-			doer = c16ViaServer(srv.URL)
+			doer = c16ViaServer(srv.URL, &e.alias)
 		}
 		obs, order := c16Concurrent(e, prefix, reqs, doer)
 		if srv != nil {
@@ -831,9 +845,6 @@ func runC16(args []string) {
 		explained := false
 		var explainedBy []int
 		hintOk := c16IsPerm(order, n)
-		if viaServer {
-			hintOk = false // RemoteAddr is the socket's, the log does not name the client
-		}
 		if hintOk {
 			ser := c16Serial(prefix, reqs, order)
 			if c16Same(obs, ser) {
@@ -863,12 +874,12 @@ func runC16(args []string) {
 					"observed_responses": obs.Resp, "observed_final": obs.Final})
 			}
 		}
-		if !viaServer && !hintOk {
+		if !hintOk {
 			stats["logged_order_unusable"]++
 		}
 
 		// case for the Coq model: the abstract requests, the order that explains the run, what the implementation answered
-		if explained && !viaServer {
+		if explained {
 			init := make([]int, len(c16Actions))
 			if len(prefix) > 0 {
 				for _, s := range prefix[0].Sets {
